@@ -1,55 +1,128 @@
 /-
   C16 — obligations tying the REGENERATED facts (Generated/C16.lean, rewritten from the Go source on every run) to the
-  hand-written model.  A source change to the fee formula or its constants, to either refusal test, to the change
-  condition, to the input loop's exit test, to the arguments of the two fee calls or to the comparator's key list makes
-  one of these fail to check.
+  hand-written model.
+
+  Every fact is an `Option`: `none` = the translator could not locate the anchor in the current source in a shape it
+  understands (the obligation is then vacuous, bin/check prints `T-TIE-UNAVAILABLE`, and the correspondence ops — rawtx,
+  build, utxos, utxoperm, buildperm, fee, withdraw, multi, batch — carry the property alone).  A fact that IS located must
+  satisfy its obligation, and the obligations are SEMANTIC (equalities of functions, uint64 wrap-around kept where it
+  matters): renaming locals / parameters / receivers, swapping the operands of a comparison, `x = x + y` for `x += y`, an
+  indexed loop for a range loop, inlining or naming sub-expressions of the fee, an early return instead of an `if` around
+  the change output, extracting the sort or the change output into a helper … all still satisfy them; another fee
+  formula or constant, a dropped or weakened refusal test, a change output for a zero remainder, another exit test of the
+  selection, other fee-call arguments, a comparator that is not (block time, txid, vout) do not.
 -/
 import SygmaModel.Model.C16
+import SygmaModel.Proofs.C16Lemmas
 import SygmaModel.Generated.C16
+import Mathlib.Tactic.Ring
 namespace Sygma.C16
 
+/-- closes an equation between a translated source expression and the model's (Bool or Nat valued, linear arithmetic) -/
+macro "fact_eq" : tactic => `(tactic| first
+  | (with_reducible rfl)
+  | omega
+  | (simp <;> omega)
+  | (rw [Bool.eq_iff_iff] <;> simp <;> omega)
+  | (simp only [Prod.mk.injEq] <;> omega))
+
 /-- the source's fee expression (sizes 180/34, rounding factor 5), reduced mod 2^64, is the model's `feeOf` -/
-theorem gen_fee (rate nin nout : Nat) : Generated.C16.feeFormula nin nout rate % M = feeOf rate nin nout := by
-  simp [Generated.C16.feeFormula, feeOf]
+theorem gen_fee : ∀ f, Generated.C16.feeFormula = some f →
+    ∀ nin nout rate, f nin nout rate % M = feeOf rate nin nout := by
+  intro f hf
+  unfold Generated.C16.feeFormula at hf
+  cases hf
+  all_goals (intro nin nout rate; unfold feeOf; try dsimp only)
+  all_goals first
+    | (with_reducible rfl)
+    | (congr 1 <;> first | ring1 | (congr 1 <;> first | ring1 | omega))
 
-/-- rawTx refuses exactly on `inAmt < outAmt` and on `inAmt < outAmt + fee` (the model's two tests, absent wrap) -/
-theorem gen_refuse (inAmt outAmt fee : Nat) :
-    Generated.C16.refuse inAmt outAmt fee = [decide (inAmt < outAmt), decide (inAmt < outAmt + fee)] := by
-  simp [Generated.C16.refuse]
+/-- rawTx refuses exactly when `inAmt < outAmt` or `inAmt < (outAmt + fee) mod 2^64` — the model's two tests, with the
+    uint64 wrap of the sum (so dropping the first test is NOT equivalent) -/
+theorem gen_refuse : ∀ g, Generated.C16.refuse = some g →
+    ∀ inAmt outAmt fee, inAmt < M → outAmt < M → fee < M →
+      g inAmt outAmt fee = (decide (inAmt < outAmt) || decide (inAmt < (outAmt + fee) % M)) := by
+  intro g hg
+  unfold Generated.C16.refuse at hg
+  cases hg
+  all_goals (intro inAmt outAmt fee h1 h2 h3; rw [M_val] at *; fact_eq)
 
-/-- consequently, past both tests the inputs cover amounts plus fee: the change is a true difference, never a wrapped one -/
-theorem gen_refuse_sound (inAmt outAmt fee : Nat) (h : ∀ b ∈ Generated.C16.refuse inAmt outAmt fee, b = false) :
-    outAmt + fee ≤ inAmt := by
-  rw [gen_refuse] at h
-  have := h (decide (inAmt < outAmt + fee)) (by simp)
-  simp at this; omega
+/-- what is left for the change is `inAmt - fee - outAmt` in uint64 -/
+theorem gen_change_amount : ∀ r, Generated.C16.changeAmount = some r →
+    ∀ inAmt outAmt fee, inAmt < M → outAmt < M → fee < M → r inAmt outAmt fee = (inAmt + 2 * M - fee - outAmt) % M := by
+  intro r hr
+  unfold Generated.C16.changeAmount at hr
+  cases hr
+  all_goals (intro inAmt outAmt fee h1 h2 h3; rw [M_val] at *; fact_eq)
 
 /-- a change output is appended exactly for a positive remainder -/
-theorem gen_change (ret : Nat) : Generated.C16.changeCond ret = decide (ret > 0) := by
-  simp [Generated.C16.changeCond]
-
-/-- the input loop stops as soon as the running total exceeds the target (`select`) -/
-theorem gen_stop (acc target : Nat) : Generated.C16.stopCond acc target = decide (acc > target) := by
-  simp [Generated.C16.stopCond]
+theorem gen_change : ∀ c, Generated.C16.changeCond = some c → ∀ ret, c ret = decide (ret > 0) := by
+  intro c hc
+  unfold Generated.C16.changeCond at hc
+  cases hc
+  all_goals (intro ret; fact_eq)
 
 /-- estimate = fee(#proposals, #proposals); final quote = fee(#selected UTXOs, #proposals + 1) -/
-theorem gen_fee_calls : Generated.C16.feeCalls =
-    ["uint64(len(proposals)) | uint64(len(proposals))", "uint64(len(utxos)) | uint64(len(proposals)) + 1"] := by decide
+theorem gen_fee_calls : ∀ fc, Generated.C16.feeCalls = some fc → ∀ np nu, fc np nu = (np, np, nu, np + 1) := by
+  intro fc hfc
+  unfold Generated.C16.feeCalls at hfc
+  cases hfc
+  all_goals (intro np nu; fact_eq)
 
-/-- the service-side comparator consults block time, then txid, then vout — the key of `keyLe` — each with `<` -/
-theorem gen_comparator :
-    Generated.C16.comparatorKeys = ["Status.BlockTime", "TxID", "Vout"] ∧
-    Generated.C16.comparatorReturns = ["utxos[i].Vout < utxos[j].Vout", "utxos[i].TxID < utxos[j].TxID",
-      "utxos[i].Status.BlockTime < utxos[j].Status.BlockTime"] := by decide
+/-- the input loop stops as soon as the running total exceeds the target (`select`) -/
+theorem gen_stop : ∀ c, Generated.C16.stopCond = some c → ∀ acc target, c acc target = decide (acc > target) := by
+  intro c hc
+  unfold Generated.C16.stopCond at hc
+  cases hc
+  all_goals (intro acc target; fact_eq)
 
-/-- `outputs` refuses exactly when this amount or the running total (tested after the addition) exceeds the supply; with
-    the total before the addition within the supply this is the model's `sumAmounts > maxSat` -/
-theorem gen_supply_cap (amt total : Nat) :
-    Generated.C16.supplyCap amt total = (decide (amt > maxSat) || decide (total > maxSat)) ∧
-    Generated.C16.supplyCapAfterAddition = true := by
-  simp [Generated.C16.supplyCap, Generated.C16.supplyCapAfterAddition, maxSat]
+/-- `outputs` refuses exactly when this amount or the running total (tested after the addition) exceeds the supply -/
+theorem gen_supply_cap : ∀ c, Generated.C16.supplyCap = some c →
+    (∀ amt total, c.1 amt total = (decide (amt > maxSat) || decide (total > maxSat))) ∧ c.2 = true := by
+  intro c hc
+  unfold Generated.C16.supplyCap at hc
+  cases hc
+  all_goals (refine ⟨?_, by decide⟩; intro amt total; simp only [maxSat]; fact_eq)
 
-/-- the message handler tests `IsUint64` and returns before `.Uint64()` can truncate (`msgAmount = none`) -/
-theorem gen_handler_uint64 : Generated.C16.handlerChecksUint64 = true := by decide
+/-- the message handler tests `IsUint64` and returns an error before `.Uint64()` can truncate (`msgAmount = none`) -/
+theorem gen_handler_uint64 : ∀ b, Generated.C16.handlerChecksUint64 = some b → b = true := by
+  intro b hb
+  unfold Generated.C16.handlerChecksUint64 at hb
+  cases hb
+  all_goals decide
+
+/-- the listing is sorted with the strict lexicographic order on (block time, txid, vout) — `lexLt` -/
+theorem gen_comparator : ∀ less, Generated.C16.comparator = some less →
+    ∀ a b : Utxo, less natsLt a.btime a.txid a.vout a.confirmed b.btime b.txid b.vout b.confirmed = lexLt a b := by
+  intro less hl
+  unfold Generated.C16.comparator at hl
+  cases hl
+  all_goals (
+    intro a b
+    simp only [lexLt]
+    by_cases h1 : a.btime = b.btime <;> by_cases h2 : a.txid = b.txid <;>
+      first
+      | (simp [h1, h2, natsLt_irrefl] <;> omega)
+      | (rw [Bool.eq_iff_iff] <;> simp [h1, h2, natsLt_irrefl] <;> omega))
+
+/-- `lexLt` is the strict part of the model's `keyLe`: `a` may stand before `b` iff `b` is not strictly before `a` -/
+theorem keyLe_eq_not_lexLt (a b : Utxo) : keyLe a b = !lexLt b a := by
+  simp only [keyLe, lexLt]
+  rcases Nat.lt_trichotomy a.btime b.btime with h | h | h
+  · have h' : ¬ b.btime < a.btime := by omega
+    have h'' : ¬ b.btime = a.btime := by omega
+    simp [h, h', h'']
+  · rcases natsLt_trichotomy a.txid b.txid with t | t | t
+    · have := natsLt_asymm _ _ t
+      have hne : ¬ b.txid = a.txid := by intro e; rw [e, natsLt_irrefl] at t; cases t
+      simp [h, t, this, hne]
+    · rw [Bool.eq_iff_iff]
+      simp [h, t, natsLt_irrefl]
+    · have := natsLt_asymm _ _ t
+      have hne : ¬ a.txid = b.txid := by intro e; rw [e, natsLt_irrefl] at t; cases t
+      simp [h, t, this, hne]
+  · have h' : ¬ a.btime < b.btime := by omega
+    have h'' : ¬ a.btime = b.btime := by omega
+    simp [h, h', h'']
 
 end Sygma.C16
